@@ -381,6 +381,10 @@ def run(repo, chk):
         # overload selection (part of the statement): the call is bound to the overload the rules select (typing census)
         from .. import typecensus
         typecensus.decide(repo, chk, 'C01.O1', {'overload'}, 'hidc/ast/expressions.py')
+        # ... and a program that fits its stack runs: the entry guard of every function compares the way the frame needs it
+        # (`>=`: a frame that exactly fits is accepted) - shared with C04.A3
+        from . import c04 as _c04b
+        _c04b.run(repo, Remap(chk, {'C04.A3': lambda c: 'C01.O1' if c.startswith('gen_func') else None}))
     for fname, want in (('array_lookup', ['src_expr', 'idx_expr']), ('array_assignment', ['src_expr', 'idx_expr', 'rhs_expr'])):
         bad = None
         n = 0
@@ -527,6 +531,13 @@ def run(repo, chk):
         rc = g.lookup_var(vc)
         if bad is None and not (rc[0] is True and getattr(rc[1], 'data', None) == 7 and len(g.state_data) == 1):
             bad = f'a const scalar global is its immediate value: {rc!r}'
+        # ... also once the global of that name has been materialised (by an earlier function): a local still wins
+        marker2 = object()
+        g.local_vars = g.local_vars.new_child()
+        g.local_vars['x'] = marker2
+        rs = g.lookup_var(vx)
+        if bad is None and not (rs[0] is False and rs[1] is marker2):
+            bad = f'a local named x must win over the global x also after the global has been used elsewhere: lookup returned {rs!r}'
     except Exception as e:      # noqa: BLE001
         bad = f'{type(e).__name__}: {e}'
     chk.expect(bad is None, 'C01.S1', 'lookup_var::locals first / global materialisation', bad or 'a local (or parameter) of that name wins '
